@@ -20,6 +20,37 @@ CLAIMED["C14"] = ("Differential check of sdns's streaming KeyTag (incl. the RSAM
   "Trusted: engine, solver. Signature mathematics, DS digest and canonical form are outside this check until their harnesses are built.", "DESIGN.md §5 C14")
 CLAIMED["C19"] = ("Policy.Clamp, Policy.ClampScope and Build executed symbolically over every policy byte, option family/netmask/scope and address (4/16 bytes, mismatches included): forwarded netmask <= ceiling and <= client's, all host bits zero, network bits unchanged, SCOPE 0, family kept, fresh storage; cache scope = min(authority scope, forwarded source, floor) with the address truncated; any out-of-range setting yields no policy at all.",
   "Trusted: engine, solver, net/netip executed as real code. Option stripping in SetEdns0 and the shared-denial bypass are separate harnesses (added as built).", "DESIGN.md §5 C19")
+
+def claim(pid, text, note):
+    CLAIMED[pid] = (text, note, "DESIGN.md §5 " + pid)
+
+claim("C01", "Two kernels of the validator's structural soundness: (1) NameInZone - 'owner is at or below the signer zone' - is proven, for all names in the bound in the library's canonical presentation spelling, to be exactly label-wise suffix containment and to agree with the library's IsSubDomain (so a key for example.com. never covers foo\\.example.com. or notexample.com.); (2) the edns writer's AD discipline: for every combination of client facts and upstream message in the bound, AD leaves only if the upstream set it and the client did not opt out (CD, or neither DO nor AD), and never on a truncated reply. Signature mathematics, DS-chain walking and the end-to-end SERVFAIL mapping are outside this check.",
+      "Trusted: engine, solver; dns.escapeByte replaced by its arithmetic form (proven equal for all 256 octets by VerifC03_EscapeLemma); Msg.Len verdict and cookie digest stubbed in the edns harness.")
+claim("C02", "Canonical order: CanonicalCompare is proven equal to the RFC 4034 section 6.1 order of the decoded labels for every pair of names in the bound, in all three escape spellings of every octet value, and antisymmetric; the NSEC interval test nsecCovers is proven, over an arbitrary total order (names mapped to symbolic ranks), to be exactly 'strictly inside (owner,next)' with apex wrap-around and the single-name sentinel. NSEC3 hashing, closest-encloser proofs end to end and the aggressive-use classifier are outside this check.",
+      "Trusted: engine, solver, the reference order written on label arrays in the harness.")
+claim("C04", "Lifetime arithmetic on the real code with symbolic instants/TTLs: remaining() is exactly min(ttl expiry, delegation cut) and never grows as the clock advances; TTL()/IsExpired()/ToMsg (library Pack/Unpack executed symbolically) never show more than what remained before the call and serve nothing once it is over; CalculateCacheTTL stays in [5 s, 24 h] and never exceeds the smallest record TTL, negative SOA minimum or time to RRSIG expiry; BoundCutFor only ever shortens the request's delegation cut. Alias-chase composition, prefetch races and the late-write guard are outside this check.",
+      "Trusted: engine, solver (cvc5 bit-vectors-as-integers for the divisions by 10^9), time model (instants = int64 ns on one line; every clock reading a fresh non-decreasing variable), float conversion of Duration.Seconds modelled as exact truncation.")
+claim("C05", "Raw-packet admission: Request.ParseWire is executed on arbitrary symbolic packets (every byte value) and proven to accept exactly the documented grammar (DESIGN.md A.3, written as an independent recogniser), never to panic, to leave no facts behind on refusal, and to record every fact (id, flags, question region, OPT size/DO/version, ECS/NSID/keepalive presence, cookie region) as the grammar reads it. Cache-ladder equivalence and byte-built OPT parity are outside this check.",
+      "Trusted: engine, solver, the grammar recogniser in the harness. Bounds: packet lengths per harness (<= 22/30 bytes fully arbitrary; option payloads to 42 bytes with consistent framing).")
+claim("C06", "Header verdict for all 2^96 headers equals the documented rule and the DNS library's accept function, and the in-place rejection is a bare header echoing ID/opcode/RD with QR and the right rcode; the edns writer, for every combination of negotiated facts and upstream message in the bound, emits no OPT unless the client sent one, echoes the client's DO, strips RRSIG/NSEC/NSEC3 without DO (unless RRSIG was asked), never returns client-subnet or an upstream keepalive, returns the cookie only against a client cookie, clears AD for opted-out clients, and a truncated reply holds only question and OPT.",
+      "Trusted: engine, solver; the size measurement (Msg.Len) is a symbolic verdict, the cookie digest a fixed string. TCP/DoH/DoQ entry code and BADVERS are outside this check.")
+claim("C07", "Transaction guard of the upstream client: for every script of replies in the bound (symbolic ids, 0-2 questions, symbolic type/class/name characters) on datagram and stream transports, Exchange returns success only for a reply carrying the query's ID and exactly its question (name compared ASCII-case-insensitively); datagram mismatches are skipped, a stream mismatch is an error. Referral/glue/bailiwick filtering in the resolver is outside this check.",
+      "Trusted: engine, solver, ASCII model of strings.ToLower (non-ASCII name bytes cut and listed). ReadMsg/WriteMsg are scripted stubs.")
+claim("C08", "Lease storage of the delegation cache: SetUntil stores an absolute expiry verbatim, capped at now+12 h, never later than requested, not at all when already over; Set never applies a lower clamp; Get returns an entry only strictly before its expiry - for arbitrary symbolic clocks, expiries and keys. Lease derivation in processDelegation and propagation of the cut into answers are outside this check (the cut fold itself is C04's BoundCutFor kernel).",
+      "Trusted: engine, solver, time model; the table behind the cache is a one-cell map model (C16).")
+claim("C09", "atomicGobWrite over a symbolic file system: with an error possible at every CreateTemp/Encode/Sync/Close/Rename/dir-sync call and the invariant asserted after every step (= every crash point), the state file is always the previous or the new complete content, success implies new content with the directory entry synced, failures before the rename clean up; sameKeyExceptRevoke accepts exactly the same key material with only the REVOKE bit differing (never by tag). The RFC 5011 state machine in AutoTA is outside this check.",
+      "Trusted: engine, solver, the 3-cell file-system model in the harness (rename of an unsynced temp may tear the target).")
+claim("C10", "Stream framing of the TCP/DoT engine: from drain-buffer fill levels at every boundary, staging a reply is proven to append exactly len16(reply)||reply after everything already queued, whether it fits, forces a flush first or goes out alone, with earlier replies untouched and first; flush writes exactly the staged bytes once; a write failure is sticky. Real goroutine interleavings, UDP slab reuse and DoH/DoQ are outside this check.",
+      "Trusted: engine, solver; the socket is a recording stub with symbolic failures.")
+claim("C11", "Safety kernels of 'exactly one reply': bounded model check of the dedup generations over every sequence of join / leader-done / follower-regroup / deadline-fires by 3 callers (at most one leader per generation, finished generations not retained, one shared next generation per cohort, timed-out generations never re-led); and the chain writer reaches the transport at most once under every sequence of Write/WriteMsg/WriteWire/BeginWire+CommitWire with symbolic transport/decoder/packer outcomes. Liveness, latency and quiescence are not decidable with this technique and are outside the claim.",
+      "Trusted: engine, solver; context.WithTimeout replaced by a flag-and-fire model; operations are atomic exactly as the mutex makes them.")
+claim("C12", "Work-ledger debit as an inductive step with interference: from an arbitrary ledger state satisfying 'counter <= limit', one Debit - with other successful debitors allowed to act at any of this caller's atomic operations (rely = guarantee) - never publishes a counter above its limit in enforce mode, counts exactly once when accepted, leaves the counter alone and latches the first rejected dimension when refused; shadow mode only counts and never refuses; CheckLocal allows exactly used < limit. Debit-before-send placement in the resolver and depth/loop caps are outside this check.",
+      "Trusted: engine, solver; sync/atomic modelled as sequentially consistent cell operations with an environment step before each.")
+claim("C15", "Differential check of the pooled packer against the library: TryPack and dns.Msg.Pack are both executed symbolically on the same message (every header bit and rcode as any int, symbolic ttl/class/address/option bytes, compressible names, 0-2 OPTs, Compress on/off, fresh or dirty pool state); whenever TryPack handles a message the bytes are proven identical to the library's, the slice has no spare capacity, the message and its OPT are untouched; nil, typed-nil and foreign records are declined before any output.",
+      "Trusted: engine, solver, reflect modelled through go/types for TypeOf/Kind/Elem/PkgPath/IsNil, sync.Pool as a LIFO of harness-seeded objects. Record types beyond A/CNAME/OPT and 4096-byte boundary sizes are outside the bound.")
+claim("C18", "Blocklist matching vs the label-wise rule: for every set of plain/wildcard/whitelist entries and query in the bound (any ASCII label character, mixed case, with/without trailing dot) Exists equals 'name or a parent is plain, or a strict parent is wildcard, and neither it nor a parent is whitelisted'; persistence over a symbolic file system: two snapshots reaching persist() in either order with arbitrary I/O failures leave a complete file that never goes backwards and matches the bookkeeping.",
+      "Trusted: engine, solver, ASCII model of strings.ToLower, the file-system model. Names with escapes and the reload parser are outside the bound.")
+
 NA_REASON = "no check registered yet: the solver-based harness for this property is still being built in this session (see DESIGN.md §5 for the plan)"
 def main():
     props = [json.loads(l) for l in open(os.path.join(ROOT, "properties.jsonl"))]
